@@ -39,6 +39,12 @@ CLAIMS = {
  'C12': dict(tech='TermFlow on the Allocator/Alloc impls: argument/term identity, alignment lemmas, copy-discipline proofs (fresh block or halving lemma), CFG error-path rule',
    text='Decides the glue and the per-operation obligations of the allocator contract for symbolic layouts and MIN_ALIGN: forwarded arguments and returned slice lengths, zero-fill of exactly [old.size..], realloc dispatch; returned blocks aligned to the new layout and MIN_ALIGN; chunk invariant at every finger store including deallocate (never reclaims past the released block); in-place grow requested with the right size/alignment under the right gate; copy counts equal min(old,new); every copy_nonoverlapping has a disjointness proof, otherwise it must be ptr::copy; no store/copy precedes an Err return. That std collections over the allocator behave identically is not decided.',
    ref='DESIGN.md section 4 C12'),
+ 'C09': dict(tech='TermFlow feasible-panic-site inventory against a justified table; must-fact failure atomicity; sibling comparison; termination measure on the retry generator',
+   text='Decides for all 15 public try_* methods: the panic/abort/unreachable sites that remain feasible after inlining and path-fact pruning are exactly the five justified ones; every store to the arena or an existing footer on the slow path is under the acquirer\'s success fact and no acquired chunk is dropped on a failing path (so Err leaves the arena holding what it held); each infallible sibling differs only by the out-of-memory panic on the failure edge of the same core; the candidate generator of the halving retry strictly decreases a lexicographic (flag, size) measure on every Some path, so the retry terminates under any refusal pattern. Debug-build-only assertion panics are inventoried in the thorough tier, not discharged; abort-freedom of std/global allocator is assumed.',
+   ref='DESIGN.md section 4 C09'),
+ 'C18': dict(tech='TermFlow formulas: strict-refusal edge facts, term identities for capacity/growth expressions',
+   text='Decides the formulas the property rests on: the bumping function refuses only under capacity < need strictly (exact fits are served; capacity is finger - data, the same term chunk_capacity() returns); the capacity constructor sizes its chunk for round_up(capacity, MIN_ALIGN) and starts it empty; the slow path starts from max(2 * usable size of the current chunk, request, default) and only halves, and each chunk is at least its candidate; RawVec grows to max(2*cap, used+extra) with a checked sum; with_capacity_in records the requested capacity and push reserves only when len == cap. The logarithmic request count and constant-factor overhead are asymptotic consequences that are not computed.',
+   ref='DESIGN.md section 4 C18'),
 }
 
 NOT_YET = 'check not built yet (build in progress, see DESIGN.md section 9)'
